@@ -1,8 +1,8 @@
 INIT Init
 NEXT Next
 CONSTANTS
-  MaxOwn = 2
-  MaxScen = 3
+  MaxOwn = 3
+  MaxScen = 2
   OtherModes = {"none"}
   EmitMod = 41
 INVARIANT ClausesHold
